@@ -62,12 +62,14 @@ func (r *SecureRealm[A, Pub]) Drop(s *SecureSwarm[A, Pub]) {
 	if s.r != r {
 		panic("drop called with Swarm from a different Realm")
 	}
-	r.mu.Lock()
-	defer r.mu.Unlock()
+	r.mu.RLock()
 	s2, exists := r.swarms[s.local]
+	r.mu.RUnlock()
 	if !exists || s2 != s {
 		panic("swarm is already closed")
 	}
+	// Closing the queue waits for running Receive callbacks, which may themselves
+	// be sending through this realm: it must not happen under the realm's lock.
 	s.tells.Close()
 	s.asks.Close()
 }
